@@ -279,6 +279,19 @@ func (x *exec) callCommonT(st *pstate, cc *ssa.CallCommon, args []Val, argTypes 
 		// `var f func(..); f = func(..) { ... f(..) ... }`: the recursive call of a closure through the
 		// variable it was assigned to
 		callee = x.fn
+		for _, fv := range x.fn.FreeVars {
+			bindings = append(bindings, x.val(st, fv))
+		}
+	}
+	if callee == nil {
+		// `var f func(..); f = func(..) {..}; ... f(..)`: a call of a local closure through its variable
+		if mc := closureThroughCell(cc.Value, in); mc != nil {
+			callee = mc.Fn.(*ssa.Function)
+			for _, b := range mc.Bindings {
+				bindings = append(bindings, x.val(st, b))
+			}
+			x.p.Assumptions["a local closure called through the variable it is assigned to ("+callee.Name()+") is resolved statically: the variable is assigned exactly once, before the call (checked on the SSA form)"] = true
+		}
 	}
 	if callee == nil {
 		return x.dynamicCall(st, cc, args, argTypes, in), false
@@ -297,10 +310,72 @@ func (x *exec) callCommonT(st *pstate, cc *ssa.CallCommon, args []Val, argTypes 
 	allArgs := args
 	allTypes := argTypes
 	if len(bindings) > 0 {
-		// closures: free variables are extra leading "parameters" named after the captured variables
-		unsupp("call of closure %s with captured variables", callee.Name())
+		// closures: the captured variables are further inputs of the contract, named after themselves
+		if len(bindings) != len(callee.FreeVars) {
+			unsupp("call of closure %s: %d bindings for %d captured variables", callee.Name(), len(bindings), len(callee.FreeVars))
+		}
+		allArgs = append(append([]Val{}, args...), bindings...)
+		allTypes = append([]types.Type{}, argTypes...)
+		for _, fv := range callee.FreeVars {
+			allTypes = append(allTypes, fv.Type())
+		}
 	}
 	return x.applyContract(st, c, callee, allArgs, allTypes, in), false
+}
+
+// closureThroughCell: v is a load of a local variable of function type that the function assigns
+// exactly once, with a closure, and the assignment dominates the instruction at. Returns the closure.
+func closureThroughCell(v ssa.Value, at ssa.Instruction) *ssa.MakeClosure {
+	u, ok := v.(*ssa.UnOp)
+	if !ok || u.Op != token.MUL {
+		return nil
+	}
+	cell, ok := u.X.(*ssa.Alloc)
+	if !ok || cell.Referrers() == nil {
+		return nil
+	}
+	var mc *ssa.MakeClosure
+	var store *ssa.Store
+	for _, ref := range *cell.Referrers() {
+		switch r := ref.(type) {
+		case *ssa.Store:
+			m, isMC := r.Val.(*ssa.MakeClosure)
+			if r.Addr != ssa.Value(cell) || !isMC || store != nil {
+				return nil
+			}
+			mc, store = m, r
+		case *ssa.MakeClosure, *ssa.UnOp, *ssa.DebugRef:
+		default:
+			return nil
+		}
+	}
+	if mc == nil {
+		return nil
+	}
+	for _, ref := range *cell.Referrers() {
+		// captured only by the closure itself (another closure might assign the variable)
+		if r, isMC := ref.(*ssa.MakeClosure); isMC && r != mc {
+			return nil
+		}
+	}
+	sb, ab := store.Block(), at.Block()
+	if sb == ab {
+		si, ai := -1, -1
+		for i, in := range sb.Instrs {
+			if in == ssa.Instruction(store) {
+				si = i
+			}
+			if in == at {
+				ai = i
+			}
+		}
+		if si < 0 || ai < 0 || si > ai {
+			return nil
+		}
+	} else if !sb.Dominates(ab) {
+		return nil
+	}
+	return mc
 }
 
 // selfThroughCapture: v is a load of a captured variable of function type that the enclosing
@@ -662,6 +737,11 @@ func (x *exec) applyContract(st *pstate, c *Contract, callee *ssa.Function, args
 		}
 	}
 	ci := callInfo{names: contractParamNames(c, callee), sig: callee.Signature, name: callee.Name(), key: FuncKey(callee), tparams: tparams}
+	if len(args) == len(ci.names)+len(callee.FreeVars) {
+		for _, fv := range callee.FreeVars {
+			ci.names = append(ci.names, fv.Name())
+		}
+	}
 	if !c.C.Trusted && origin.Pkg != nil && x.fn.Pkg != nil && origin.Pkg != x.fn.Pkg {
 		x.p.Assumptions["contract of "+ci.key+" is used as given; it is discharged by the check of its own package"] = true
 	}
